@@ -153,6 +153,10 @@ let () =
          g := g';
          Printf.printf "w %s %s\n" (match r with WOk -> "ok" | WTooBig -> "toobig") (gobs ())
        | ["L"; limit] -> g := { !g with g_limit = z_of_string limit }   (* headSizeLimit reconfigured *)
+       | ["RS"; p0] ->
+         let (g', r) = wal_step crc !g (WStart (nlist_of_str (bytes_of_tok p0))) in
+         g := g';
+         Printf.printf "rs %s %s\n" (match r with WOk -> "ok" | WTooBig -> "toobig") (gobs ())
        | ["T"] -> g := fst (wal_step crc !g WTick); Printf.printf "t %s\n" (gobs ())
        | ["F"] -> g := fst (wal_step crc !g WFlush); Printf.printf "f %s\n" (gobs ())
        | ["R"] -> g := fst (wal_step crc !g WRotate); Printf.printf "r %s\n" (gobs ())
@@ -178,8 +182,11 @@ let () =
          let grp = split_group !sizes (apply_edits !base eds) !g.g_limit in
          print_endline (search_obs grp h ign)
        | "XR" :: eds ->
+         (* the file at the WAL's path afterwards is exactly what repair wrote (the destination is truncated);
+            then the second replay pass over it *)
          let (out, ok) = repair crc ser deser (nlist_of_str (apply_edits !base eds)) in
-         Printf.printf "r %s %s\n" (if ok then "ok" else "err") (fp (str_of_nlist out))
+         Printf.printf "r %s %s | %s\n" (if ok then "ok" else "err") (fp (str_of_nlist out))
+           (String.concat " " (List.map tok_obs (read_log crc deser false RGroup out)))
        | l -> failwith ("bad line: " ^ String.concat " " l));
       loop () in
   loop ()
